@@ -34,7 +34,8 @@ CONFIG = {
                    ' Also: sparse operands over 4-5 variables, every function of'
                    ' a 3-subset against every function of a 2-subset of four'
                    ' variables, diagrams built from raw nodes with a variable'
-                   ' outside the ordering.'),
+                   ' outside the ordering.'
+                   ' Also (round 6): foreign-variable rejections while diagrams on that variable are alive under other orderings, and after they were dropped.'),
     'level_note': ('Trusted base: vmon/refbool.py (walker + truth-table '
                    'algebra on ints). Canonicity across histories is C16.'),
     'deciding': ['c17.and', 'c17.or', 'c17.xor', 'c17.invert', 'c17.restrict',
